@@ -532,7 +532,11 @@ def run(ctx):
     for w in wrap:
         def is_core(x):
             return x['k'] == 'call' and x.get('name') == 'CanonicalizePath' and len(x.get('args') or []) == 3
+        pn_ = w.params[0]['n']
         must_pass(ctx, 'C12.CN', w, is_core, lambda x: x['k'] in ('ret', 'exit'),
-                  'the string overload of CanonicalizePath always delegates to the char* overload',
-                  'canonicaliser:wrapper-bypasses-core')
+                  'the string overload of CanonicalizePath always delegates to the char* overload (except for the empty string)',
+                  'canonicaliser:wrapper-bypasses-core',
+                  edge_ok=lambda b2, i2, s3, w=w, pn_=pn_: not any((p_ is True and 'empty()' in dstr(a) and pn_ in dstr(a)) or
+                                                                    (p_ is True and 'size()' in dstr(a) and '== 0' in dstr(a) and pn_ in dstr(a))
+                                                                    for k_, p_, a in w.edge_facts(b2, i2)))
     ctx.floor('C12.CN', 10)
